@@ -104,6 +104,48 @@ def cmd_replay(args):
   return checks.replay(doc, args)
 
 
+def cmd_minimise(args):
+  """Minimises a replay file in place against --repo (must reproduce there)."""
+  import time as _t
+  from dst import checks
+  _bootstrap(args.repo)
+  doc = core.read_replay(args.file)
+  eng = runner.engine_module(doc["engine"])
+  small = eng.minimise(doc["plan"], doc["violation"], _t.time() + args.budget)
+  _, viols, _ = eng.execute(small)
+  same = [v for v in viols if v["key"] == doc["violation"]["key"] and
+          v["property"] == doc["property"]]
+  if not same:
+    print("minimise: violation does not reproduce on %s" % args.repo)
+    return 2
+  doc["original_ops"] = doc.get("original_ops", len(doc["plan"]["ops"]))
+  doc["minimised_ops"] = len(small["ops"])
+  doc["plan"], doc["violation"] = small, same[0]
+  doc["repo_revision"] = overlay.repo_revision(args.repo)
+  with open(args.file, "w") as fh:
+    import json as _j
+    _j.dump(doc, fh, sort_keys=True, indent=1, default=core._json_default)  # pylint: disable=protected-access
+  print("minimise: %d -> %d ops" % (doc["original_ops"], doc["minimised_ops"]))
+  return 0
+
+
+def cmd_regress(args):
+  """Replays every file under replays/fixed: none may reproduce on --repo."""
+  import glob
+  from dst import checks
+  _bootstrap(args.repo)
+  bad = 0
+  files = sorted(glob.glob(os.path.join(core.REPLAY_DIR, "fixed", "*.json")))
+  for f in files:
+    doc = core.read_replay(f)
+    args.file = f
+    rc = checks.replay(doc, args)
+    if rc != 0 and not doc["violation"].get("known"):
+      bad += 1
+  print("regress: %d files, %d reproduce" % (len(files), bad))
+  return 1 if bad else 0
+
+
 def cmd_selftest(args):
   from dst import selftest
   _bootstrap(args.repo)
@@ -130,6 +172,15 @@ def main(argv=None):
   r.add_argument("--repo", default="/repo")
   r.add_argument("--verbose", "-v", action="store_true")
   r.set_defaults(fn=cmd_replay)
+  m = sub.add_parser("minimise")
+  m.add_argument("file")
+  m.add_argument("--repo", default="/repo")
+  m.add_argument("--budget", type=float, default=300.0)
+  m.set_defaults(fn=cmd_minimise)
+  g = sub.add_parser("regress")
+  g.add_argument("--repo", default="/repo")
+  g.add_argument("--verbose", "-v", action="store_true")
+  g.set_defaults(fn=cmd_regress)
   s = sub.add_parser("selftest")
   s.add_argument("what", choices=["determinism"])
   s.add_argument("--repo", default="/repo")
